@@ -62,6 +62,7 @@ type faultyReaderAt struct {
 	calls    int
 	failCall int
 	short    bool
+	eof      bool
 	fired    bool
 }
 
@@ -69,6 +70,9 @@ func (r *faultyReaderAt) ReadAt(p []byte, off int64) (int, error) {
 	r.calls++
 	if r.calls == r.failCall {
 		r.fired = true
+		if r.eof {
+			return 0, io.EOF // the source ends early (e.g. the file was truncated after it was opened)
+		}
 		if r.short && len(p) > 1 {
 			n, _ := bytes.NewReader(r.data).ReadAt(p[:len(p)/2], off)
 			return n, io.ErrUnexpectedEOF
@@ -231,7 +235,7 @@ func c14Main(args []string) error {
 			probe("trunc", n, "", true, anyErr, pan, rows, msg)
 		}
 		readatProbe := func(call int, mode string) {
-			fr := &faultyReaderAt{data: data, failCall: call, short: mode == "short"}
+			fr := &faultyReaderAt{data: data, failCall: call, short: mode == "short", eof: mode == "eof"}
 			rows, anyErr, pan, msg := c14ReadAll(fr, int64(len(data)), seed)
 			probe("readat", call, mode, fr.fired, anyErr, pan, rows, msg)
 		}
@@ -324,6 +328,7 @@ func c14Main(args []string) error {
 		for _, c := range sample(rcalls) {
 			readatProbe(c, "error")
 			readatProbe(c, "short")
+			readatProbe(c, "eof")
 		}
 	}
 	return nil
